@@ -22,7 +22,7 @@ import (
 	"github.com/flamego/flamego/verifharness/internal/gen"
 )
 
-const rule = "case = request method in {GET, HEAD, POST, PUT, DELETE, OPTIONS, \"\"} x an underlying writer (with or without http.Flusher, with or without io.ReaderFrom; sometimes itself a fresh flamego ResponseWriter around the spy; one case in five: the writer is the one a handler gets from its request context, after an earlier request on the same application registered 0..2 functions on its own response and wrote nothing) x a history of 1..14 operations over {WriteHeader(100..999; with an underlying writer that refuses other codes by panicking also 0, 99, 1000, -1), Write / io.WriteString / io.Copy of 0..64 bytes or of 0.5..70 KB (optionally cut short by the underlying writer with an error), Flush, Before(hook)}; hooks set a header, read Status()/Written(), log themselves and sometimes register one more function while they run; a Content-Length response header may be set at any point. Second check: responses of 1..260 writes of 1..32 MiB into an underlying writer that only counts (totals around 2^31 and 2^32 bytes): Size() equals what was forwarded. " +
+const rule = "case = request method in {GET, HEAD, POST, PUT, DELETE, OPTIONS, \"\"} x an underlying writer (with or without http.Flusher, with or without io.ReaderFrom; sometimes itself a fresh flamego ResponseWriter around the spy; one case in five: the writer is the one a handler gets from its request context, after an earlier request on the same application registered 0..2 functions on its own response and wrote nothing) x a history of 1..14 operations over {WriteHeader(100..999; with an underlying writer that refuses other codes by panicking also 0, 99, 1000, -1), Write / io.WriteString / io.Copy of 0..64 bytes or of 0.5..70 KB (optionally cut short by the underlying writer with an error), Flush, Before(hook)}; hooks set a header, read Status()/Written(), log themselves and sometimes register one more function while they run; a Content-Length response header may be set at any point of a HEAD response. Second check: responses of many writes (up to a few thousand) of 1..32 MiB into an underlying writer that only counts (totals around 2^31 and 2^32 bytes): Size() equals what was forwarded. " +
 	"Oracle: a state-machine model written from the statement, compared after every step (Status, Written, Size, return values of Write) together with invariants over the log of calls the underlying writer received (<=1 WriteHeader, before every Write/Flush; hooks registered before the trigger ran exactly once, in reverse order, before that WriteHeader, and saw Status()==0; later hooks never run). " +
 	"non-trivial = a history with >=2 hooks and a trigger, or a second WriteHeader / an implicit 200, or a body write on HEAD, or a short write; distinct by case text"
 
@@ -403,17 +403,18 @@ func checkCase(c Case) (out evid.Outcome) {
 		if other != nil {
 			// the other response is sent last: its own functions, nobody else's
 			runsBefore := fmt.Sprint(hookRuns)
+			if len(otherRuns) != 0 {
+				// functions registered on a writer run before *that* writer's status
+				return fail(out, "hooks", "functions registered on a second response writer ran (%v) before that writer sent anything, while the writer under test was at work; %s", otherRuns, js(c))
+			}
 			other.WriteHeader(204)
 			if fmt.Sprint(otherRuns) != fmt.Sprint(otherWant) || fmt.Sprint(hookRuns) != runsBefore {
 				return fail(out, "hooks", "a second response writer, alive at the same time, ran %v (want its own functions %v); the functions of the writer under test ran %s before and %v after that; %s", otherRuns, otherWant, runsBefore, hookRuns, js(c))
 			}
-			for _, id := range hookRuns {
-				if id >= 7000 && id < 9000 {
-					return fail(out, "hooks", "the writer under test ran %v: %d was registered on another response writer; %s", hookRuns, id, js(c))
-				}
+			if len(otherWant) > 0 {
+				out.NonTrivial = true
+				out.Classes = append(out.Classes, "two-response-writers-alive")
 			}
-			out.NonTrivial = true
-			out.Classes = append(out.Classes, "two-response-writers-alive")
 		}
 		return out
 	}
@@ -504,6 +505,11 @@ func genCase(t *rapid.T) Case {
 	for i := 0; i < n; i++ {
 		switch k := rapid.IntRange(0, 10).Draw(t, "op"); {
 		case k == 10:
+			if c.Method != "HEAD" {
+				// (only where no body follows: a writer may hold a declared length
+				// against the bytes it is given, as net/http's does)
+				continue
+			}
 			c.Ops = append(c.Ops, Op{K: "cl", V: []int{11, 1234, 0, 70000}[rapid.IntRange(0, 3).Draw(t, "clv")]})
 		case k < 2:
 			code := rapid.IntRange(100, 999).Draw(t, "code")
